@@ -349,6 +349,8 @@ pub struct Work<'a> {
     last_hashes: Hashes,
     build_states: BuildStates,
     pub tasks_run: usize,
+    /// See load::State::manifest_files.
+    manifest_files: FileId,
 }
 
 impl<'a> Work<'a> {
@@ -359,6 +361,7 @@ impl<'a> Work<'a> {
         options: &Options,
         progress: &'a dyn Progress,
         pools: SmallMap<String, usize>,
+        manifest_files: FileId,
     ) -> Self {
         let file_state = FileState::new(&graph);
         let build_count = graph.builds.next_id();
@@ -371,6 +374,7 @@ impl<'a> Work<'a> {
             last_hashes,
             build_states: BuildStates::new(build_count, pools),
             tasks_run: 0,
+            manifest_files,
         }
     }
 
@@ -378,7 +382,12 @@ impl<'a> Work<'a> {
         if name.is_empty() {
             return None;
         }
-        self.graph.files.lookup(&to_owned_canon_path(name))
+        let id = self.graph.files.lookup(&to_owned_canon_path(name))?;
+        // A name that only the build log knows is not part of this build.
+        if crate::densemap::Index::index(&id) >= crate::densemap::Index::index(&self.manifest_files) {
+            return None;
+        }
+        Some(id)
     }
 
     pub fn want_file(&mut self, id: FileId) -> anyhow::Result<()> {
